@@ -2,14 +2,16 @@
    for EVERY program of the fragment (any nesting depth, any number of statements) the model ends without
    error and produces exactly the expected logical lines.  Proof: symbolic execution of `run` on states of
    the shape `ST` (finished lines, one current line, one entry on the current_line stack), with effect
-   lemmas for the primitives and an induction over the syntax tree for the statement-list loop. *)
+   lemmas for the primitives and an induction over the syntax tree for the statement-list loop (generic in
+   the kind of the enclosing block: begin/end, repeat/until, try/finally, finally/end). *)
 From PasfmtVerif Require Import Model.Fragment Model.DirectiveTree Proofs.DirectiveTreeProofs Proofs.ParserKernelProofs Proofs.ParserGrammarProofs
   Proofs.ParserGrammarTypesProofs Proofs.ParserGrammarCoverProofs Proofs.ParserGrammarEofProofs.
 Local Open Scope nat_scope.
 
 Definition plain (t : RawTokenType) : Prop :=
   match t with
-  | RTT_Identifier | RTT_Op OK_Semicolon | RTT_Op OK_Assign | RTT_Op OK_Dot | RTT_Keyword KK_Begin | RTT_Keyword KK_End | RTT_Eof => True
+  | RTT_Identifier | RTT_Op OK_Semicolon | RTT_Op OK_Assign | RTT_Op OK_Dot | RTT_Keyword KK_Begin | RTT_Keyword KK_End
+  | RTT_Keyword KK_Repeat | RTT_Keyword KK_Until | RTT_Keyword KK_Try | RTT_Keyword KK_Finally | RTT_Eof => True
   | _ => False
   end.
 
@@ -338,9 +340,43 @@ Qed.
 
 (* the context-ending test, on the two context shapes of the fragment *)
 Definition cSt : pctx := ctx (CT_Statement SK_Normal) false P_semicolon (L 0).
-Definition cSB : pctx := ctx (CT_StatementBlock BK_Begin) true P_end (L 1).
+(* the four kinds of statement blocks of the fragment: they differ only in the terminating keyword *)
+Inductive blk := KBegin | KRepeat | KTry | KFinally.
+Definition cBlk (b : blk) : pctx :=
+  match b with
+  | KBegin => ctx (CT_StatementBlock BK_Begin) true P_end (L 1)
+  | KRepeat => ctx (CT_StatementBlock BK_Repeat) true P_until (L 1)
+  | KTry => ctx (CT_StatementBlock BK_Try) true P_except_finally (L 1)
+  | KFinally => ctx (CT_StatementBlock BK_Finally) true P_else_end (L 1)
+  end.
+Definition tTerm (b : blk) : RawTokenType :=
+  match b with KBegin | KFinally => tEnd | KRepeat => tUntil | KTry => tFinally end.
+Definition is_term (b : blk) (t : RawTokenType) : bool :=
+  match t with
+  | RTT_Keyword KK_End => match b with KBegin | KFinally => true | _ => false end
+  | RTT_Keyword KK_Until => match b with KRepeat => true | _ => false end
+  | RTT_Keyword KK_Finally => match b with KTry => true | _ => false end
+  | _ => false
+  end.
+Lemma is_term_term b : is_term b (tTerm b) = true. Proof. destruct b; reflexivity. Qed.
+Lemma first_parent_blk b fl C : first_parent ((cBlk b, fl) :: C) = first_parent C. Proof. destruct b; reflexivity. Qed.
+Lemma plain_sum_blk b fl C : plain_sum ((cBlk b, fl) :: C) = (1 + plain_sum C)%Z. Proof. destruct b; reflexivity. Qed.
+Lemma cBlk_level b : clevel_parent (c_level (cBlk b)) = None. Proof. destruct b; reflexivity. Qed.
 Definition cTop : pctx := ctx CT_TopLevelStatement true P_top_semicolon (L 0).
 Definition cUt (l : clevel) : pctx := mkCtx CT_Utility true P_never l.
+
+Lemma blk_pred_eval b s k L c M mc last cx lv a t :
+  ST s k L c M mc last cx lv a -> nth_error T k = Some t -> eval_pred pass (c_pred (cBlk b)) s = is_term b t.
+Proof.
+  intros H Ht. pose proof (ST_cur_tt _ _ _ _ _ _ _ _ _ _ _ H Ht) as Ct. pose proof (plain_nth _ _ Ht) as P.
+  destruct b; cbn [cBlk ctx c_pred eval_pred]; unfold o_kw_end; rewrite Ct;
+    (destruct t as [o| |k0|k0| | | | | | |]; try contradiction; try reflexivity; destruct k0; try contradiction; reflexivity).
+Qed.
+Lemma cBlk_opaque b : c_opaque (cBlk b) = true. Proof. destruct b; reflexivity. Qed.
+
+Section Blk.
+Variable bk : blk.
+Notation cSB := (cBlk bk).
 
 Lemma ST_err_none s k L c M mc last cx lv a : ST s k L c M mc last cx lv a -> ps_err pass s = None.
 Proof. intros (_ & _ & _ & R). unfold restv in R. congruence. Qed.
@@ -363,25 +399,23 @@ Proof. intros E. cbn [run]. rewrite E. destruct c; reflexivity. Qed.
 (* ending contexts on the shapes of the fragment *)
 Lemma ending_St_SB s k L c M mc last C lv a t :
   ST s k L c M mc last ((cSt, false) :: (cSB, false) :: C) lv a -> nth_error T k = Some t ->
-  ending_ctx pass s = match t with RTT_Op OK_Semicolon => Some 1 | RTT_Keyword KK_End => Some 2 | _ => None end.
+  ending_ctx pass s = match t with RTT_Op OK_Semicolon => Some 1 | _ => if is_term bk t then Some 2 else None end.
 Proof.
-  intros H Ht. unfold ending_ctx. rewrite (ST_ctx _ _ _ _ _ _ _ _ _ _ H). cbn [ending_go cSt cSB ctx c_pred c_opaque eval_pred].
+  intros H Ht. unfold ending_ctx. rewrite (ST_ctx _ _ _ _ _ _ _ _ _ _ H). cbn [ending_go cSt ctx c_pred c_opaque eval_pred].
+  rewrite (blk_pred_eval bk _ _ _ _ _ _ _ _ _ _ _ H Ht), cBlk_opaque.
   rewrite (ST_cur_tt _ _ _ _ _ _ _ _ _ _ _ H Ht). pose proof (plain_nth _ _ Ht) as P.
   destruct t as [o| |k0|k0| | | | | | |]; try contradiction; try reflexivity.
-  - destruct o; try contradiction; reflexivity.
-  - destruct k0; try contradiction; reflexivity.
+  all: try (destruct o; try contradiction; reflexivity).
+  all: try (destruct k0; try contradiction; cbn [o_semicolon]; destruct (is_term bk _); reflexivity).
 Qed.
 Lemma ending_St_ended s k L c M mc last r lv a :
   ST s k L c M mc last ((cSt, true) :: r) lv a -> ending_ctx pass s = Some 1.
 Proof. intros H. unfold ending_ctx. rewrite (ST_ctx _ _ _ _ _ _ _ _ _ _ H). reflexivity. Qed.
 Lemma is_ending_SB s k L c M mc last C lv a t :
-  ST s k L c M mc last ((cSB, false) :: C) lv a -> nth_error T k = Some t ->
-  is_ending pass s = match t with RTT_Keyword KK_End => true | _ => false end.
+  ST s k L c M mc last ((cSB, false) :: C) lv a -> nth_error T k = Some t -> is_ending pass s = is_term bk t.
 Proof.
-  intros H Ht. unfold is_ending, ending_ctx. rewrite (ST_ctx _ _ _ _ _ _ _ _ _ _ H). cbn [ending_go cSB ctx c_pred c_opaque eval_pred].
-  rewrite (ST_cur_tt _ _ _ _ _ _ _ _ _ _ _ H Ht). pose proof (plain_nth _ _ Ht) as P.
-  destruct t as [o| |k0|k0| | | | | | |]; try contradiction; try reflexivity.
-  all: try (destruct o; try contradiction; reflexivity); try (destruct k0; try contradiction; reflexivity).
+  intros H Ht. unfold is_ending, ending_ctx. rewrite (ST_ctx _ _ _ _ _ _ _ _ _ _ H). cbn [ending_go].
+  rewrite (blk_pred_eval bk _ _ _ _ _ _ _ _ _ _ _ H Ht), cBlk_opaque. destruct (is_term bk t); reflexivity.
 Qed.
 
 (* next_tt: the next token of the pass (no comments in the fragment) *)
@@ -404,13 +438,12 @@ Lemma last_ctx_ST s k L c M mc last x fl r lv a : ST s k L c M mc last ((x, fl) 
 Proof. intros H. unfold last_ctx. rewrite (ST_ctx _ _ _ _ _ _ _ _ _ _ H). reflexivity. Qed.
 Lemma prelude_continue s k L c M mc last C lv a t :
   ST s k L c M mc last ((cSt, false) :: (cSB, false) :: C) lv a -> nth_error T k = Some t ->
-  t <> tSemi -> t <> tEnd -> statement_prelude pass s = (s, true).
+  t <> tSemi -> is_term bk t = false -> statement_prelude pass s = (s, true).
 Proof.
-  intros H Ht N1 N2. unfold statement_prelude. rewrite (last_ctx_ST _ _ _ _ _ _ _ _ _ _ _ _ H), (ending_St_SB _ _ _ _ _ _ _ _ _ _ _ H Ht).
+  intros H Ht N1 N2. unfold statement_prelude. rewrite (last_ctx_ST _ _ _ _ _ _ _ _ _ _ _ _ H), (ending_St_SB _ _ _ _ _ _ _ _ _ _ _ H Ht), N2.
   pose proof (plain_nth _ _ Ht) as P.
   destruct t as [o| |k0|k0| | | | | | |]; try contradiction; try (destruct (at_start pass s); reflexivity).
-  - destruct o; try contradiction; try (destruct (at_start pass s); reflexivity).
-  - destruct k0; try contradiction; try (destruct (at_start pass s); reflexivity).
+  destruct o; try contradiction; try (destruct (at_start pass s); reflexivity).
 Qed.
 Lemma prelude_semicolon s k L c M mc last C lv a :
   ST s k L c M mc last ((cSt, false) :: (cSB, false) :: C) lv a -> nth_error T k = Some tSemi ->
@@ -435,7 +468,7 @@ Proof.
   (* parse_statement, first round: the identifier *)
   rewrite (run_S (S f) C_statement _ (ST_err _ _ _ _ _ _ _ _ _ _ H)).
   unfold arm_statement. rewrite (ST_cur_tt _ _ _ _ _ _ _ _ _ _ _ H Hk). cbn [tI].
-  rewrite (prelude_continue _ _ _ _ _ _ _ _ _ _ _ H Hk) by discriminate. cbn [negb starm_of tI].
+  rewrite (prelude_continue _ _ _ _ _ _ _ _ _ _ _ H Hk) by (discriminate || reflexivity). cbn [negb starm_of tI].
   unfold st_label_cand, label_or_other. rewrite (ST_at_start _ _ _ _ _ _ _ _ _ _ H).
   rewrite (next_tt_ST _ _ _ _ _ _ _ _ _ _ _ H Hk1) by discriminate. cbn [tSemi o_colon andb].
   unfold t_other, t_loop.
@@ -483,7 +516,7 @@ Proof.
   pose proof (structures_simple f _ _ _ _ _ _ _ _ _ H1 Hk Hk1 ltac:(lia)) as H2.
   pose proof (pop_ctx_ST _ _ _ _ _ _ _ _ _ _ _ H2) as H3.
   pose proof (finish_ST _ _ _ _ _ _ _ _ _ _ H3 ltac:(discriminate)) as H4.
-  cbn [first_parent plain_sum cSB ctx c_level ParserGrammar.L lm_type] in H4. rewrite HC in H4.
+  rewrite first_parent_blk, plain_sum_blk, HC in H4. cbn [lm_type] in H4.
   pose proof (take_separators_ST (CL_Level 0%Z) _ _ _ _ _ _ _ _ _ t' H4 Hk1 Hk2 Hne) as H5.
   rewrite app_length in H5. cbn [length] in H5. rewrite nth_app_last in H5.
   specialize (H5 ltac:(lia) ltac:(discriminate)). rewrite upd_nth_app_last in H5. cbn [app] in H5.
@@ -510,7 +543,7 @@ Proof.
   (* round 1: identifier *)
   rewrite (run_S _ C_statement _ (ST_err _ _ _ _ _ _ _ _ _ _ H)).
   unfold arm_statement. rewrite (ST_cur_tt _ _ _ _ _ _ _ _ _ _ _ H Hk). cbn [tI].
-  rewrite (prelude_continue _ _ _ _ _ _ _ _ _ _ _ H Hk) by discriminate. cbn [negb starm_of tI].
+  rewrite (prelude_continue _ _ _ _ _ _ _ _ _ _ _ H Hk) by (discriminate || reflexivity). cbn [negb starm_of tI].
   unfold st_label_cand, label_or_other. rewrite (ST_at_start _ _ _ _ _ _ _ _ _ _ H).
   rewrite (next_tt_ST _ _ _ _ _ _ _ _ _ _ _ H Hk1) by discriminate. cbn [tAssign o_colon andb].
   unfold t_other, t_loop.
@@ -518,7 +551,7 @@ Proof.
   (* round 2: `:=` sets the line type *)
   rewrite (run_S _ C_statement _ (ST_err _ _ _ _ _ _ _ _ _ _ H1)).
   unfold arm_statement. rewrite (ST_cur_tt _ _ _ _ _ _ _ _ _ _ _ H1 Hk1). cbn [tAssign].
-  rewrite (prelude_continue _ _ _ _ _ _ _ _ _ _ _ H1 Hk1) by discriminate. cbn [negb starm_of tAssign].
+  rewrite (prelude_continue _ _ _ _ _ _ _ _ _ _ _ H1 Hk1) by (discriminate || reflexivity). cbn [negb starm_of tAssign].
   cbv delta [st_assign t_loop] beta zeta.
   pose proof (next_token_ST _ _ _ _ _ _ _ _ _ _ H1 Hkn1) as H2. cbn [app] in H2.
   rewrite (ST_cur_type _ _ _ _ _ _ _ _ _ _ H2), Hty. cbn [llt_is LogicalLineType_eqb LogicalLineType_idx Nat.eqb].
@@ -526,7 +559,7 @@ Proof.
   (* round 3: identifier, not at the start of the line *)
   rewrite (run_S _ C_statement _ (ST_err _ _ _ _ _ _ _ _ _ _ H3)).
   unfold arm_statement. rewrite (ST_cur_tt _ _ _ _ _ _ _ _ _ _ _ H3 Hk2). cbn [tI].
-  rewrite (prelude_continue _ _ _ _ _ _ _ _ _ _ _ H3 Hk2) by discriminate. cbn [negb starm_of tI].
+  rewrite (prelude_continue _ _ _ _ _ _ _ _ _ _ _ H3 Hk2) by (discriminate || reflexivity). cbn [negb starm_of tI].
   unfold st_label_cand, label_or_other. rewrite (ST_at_start _ _ _ _ _ _ _ _ _ _ H3). cbn [andb].
   unfold t_other, t_loop.
   pose proof (next_token_ST _ _ _ _ _ _ _ _ _ _ H3 Hkn2) as H4. cbn [app] in H4.
@@ -556,7 +589,7 @@ Proof.
   pose proof (structures_assign f _ _ _ _ _ _ _ _ _ H1 eq_refl Hk Hk1 Hk2 Hk3 ltac:(lia)) as H2.
   pose proof (pop_ctx_ST _ _ _ _ _ _ _ _ _ _ _ H2) as H3.
   pose proof (finish_ST _ _ _ _ _ _ _ _ _ _ H3 ltac:(discriminate)) as H4.
-  cbn [first_parent plain_sum cSB ctx c_level ParserGrammar.L lm_type] in H4. rewrite HC in H4.
+  rewrite first_parent_blk, plain_sum_blk, HC in H4. cbn [lm_type] in H4.
   pose proof (take_separators_ST (CL_Level 0%Z) _ _ _ _ _ _ _ _ _ t' H4 Hk3 Hk4 Hne) as H5.
   rewrite app_length in H5. cbn [length] in H5. rewrite nth_app_last in H5.
   specialize (H5 ltac:(lia) ltac:(discriminate)). rewrite upd_nth_app_last in H5. cbn [app] in H5.
@@ -569,7 +602,7 @@ Definition need (ss : stmts) : nat := 10 + 10 * length (render ss).
 Definition stmt_list_call : call := C_stmt_list (CT_Statement SK_Normal) false P_semicolon.
 (* the tokens of `l` sit in T from position k on *)
 Definition toks_at (k : nat) (l : list RawTokenType) : Prop := forall j t, nth_error l j = Some t -> nth_error T (k + j) = Some t.
-(* what the statement-list loop does on ss inside the contexts (cSB :: C), from a line start at k *)
+(* what the statement-list loop does on ss inside the contexts (block bk :: C), from a line start at k *)
 Definition Post (ss : stmts) (C : list (pctx * bool)) (f : nat) (s : pstate) (k : nat) (Ls : list (list nat)) (M : list lmeta)
            (lv : levels) (a : list nat) : Prop :=
   exists mc' last' fl, lm_type mc' = LLT_Unknown /\
@@ -578,7 +611,7 @@ Definition Post (ss : stmts) (C : list (pctx * bool)) (f : nat) (s : pstate) (k 
        (M ++ map meta_of (expected (1 + plain_sum C) k ss)) mc' last' ((cSB, fl) :: C) lv a.
 Definition IHfor (ss : stmts) (C : list (pctx * bool)) : Prop :=
   forall f s k Ls M mc last lv a, need ss <= f -> ST s k Ls [] M mc last ((cSB, false) :: C) lv a ->
-  toks_at k (render ss ++ [tEnd]) -> Post ss C f s k Ls M lv a.
+  toks_at k (render ss ++ [tTerm bk]) -> Post ss C f s k Ls M lv a.
 
 Lemma take_until_ending pred s : has_err pass s = false -> cur_tt pass s <> None -> pred s = false ->
   is_ending pass s = true -> take_until pass pred s = s.
@@ -587,97 +620,16 @@ Proof.
   replace (remaining pass s + 2) with (S (remaining pass s + 1)) by lia. cbn [op_until_go]. rewrite E.
   destruct (cur_tt pass s); [|congruence]. rewrite Hp, He. reflexivity.
 Qed.
-
-Lemma iter_block b f s k Ls M mc last C lv a t' :
-  IHfor b ((cSt, false) :: (cSB, false) :: C) ->
-  ST s k Ls [] M mc last ((cSB, false) :: C) lv a -> first_parent C = None ->
-  nth_error T k = Some tBegin -> toks_at (S k) (render b ++ [tEnd]) ->
-  nth_error T (S (S k + length (render b))) = Some tSemi ->
-  nth_error T (S (S (S k + length (render b)))) = Some t' -> t' <> tSemi ->
-  8 + need b <= f ->
-  let e := S k + length (render b) in
-  exists mc3, lm_type mc3 = LLT_Unknown /\
-  ST (take_separators_on_last_line pass (CL_Level 0%Z) (finish_logical_line pass (RUN f (C_with_ctx cSt A_structures) s)))
-     (S (S e)) (Ls ++ [k] :: map ll_toks (expected (1 + plain_sum C + 1) (S k) b) ++ [[e; S e]]) []
-     (M ++ mkLM None (lvl (1 + plain_sum C)) LLT_Unknown :: map meta_of (expected (1 + plain_sum C + 1) (S k) b)
-        ++ [mkLM None (lvl (1 + plain_sum C)) LLT_Unknown])
-     mc3 (length Ls + S (length (expected (1 + plain_sum C + 1) (S k) b))) ((cSB, false) :: C) lv a.
-Proof.
-  intros IHb H HC Hk Hb Hse Hse1 Hne Hf e.
-  assert (Hkn : k < n) by (apply nth_error_Some; congruence).
-  destruct f as [|[|[|[|[|f]]]]]; try lia.
-  rewrite (with_ctx_structures _ cSt s (ST_err _ _ _ _ _ _ _ _ _ _ H) eq_refl).
-  pose proof (finish_empty_ST _ _ _ _ _ _ _ _ _ H) as H0.
-  pose proof (push_ctx_ST cSt _ _ _ _ _ _ _ _ _ _ H0) as H1.
-  set (C' := (cSt, false) :: (cSB, false) :: C) in *.
-  (* parse_structures sees `begin` *)
-  rewrite (run_S _ C_structures _ (ST_err _ _ _ _ _ _ _ _ _ _ H1)).
-  unfold arm_structures. rewrite (ST_cur_tt _ _ _ _ _ _ _ _ _ _ _ H1 Hk). cbn [tBegin].
-  rewrite (ending_St_SB _ _ _ _ _ _ _ _ _ _ _ H1 Hk). cbn [tBegin sarm_of].
-  cbv delta [sa_begin stmt_block] beta.
-  pose proof (next_token_ST _ _ _ _ _ _ _ _ _ _ H1 Hkn) as H2. cbn [app] in H2.
-  change (ctx (CT_StatementBlock BK_Begin) true P_end (ParserGrammar.L 1)) with cSB.
-  rewrite (run_S _ (C_stmt_block cSB SK_Normal) _ (ST_err _ _ _ _ _ _ _ _ _ _ H2)). unfold arm_stmt_block.
-  rewrite (with_ctx_stmt_list _ cSB _ _ (ST_err _ _ _ _ _ _ _ _ _ _ H2) eq_refl).
-  pose proof (finish_ST _ _ _ _ _ _ _ _ _ _ H2 ltac:(discriminate)) as H3.
-  cbn [first_parent plain_sum C' cSt cSB ctx c_level ParserGrammar.L lm_type] in H3. rewrite HC in H3.
-  pose proof (push_ctx_ST cSB _ _ _ _ _ _ _ _ _ _ H3) as H4.
-  (* the body *)
-  destruct (IHb (S f) _ _ _ _ _ _ _ _ ltac:(lia) H4 Hb) as (mcb & lastb & flb & Tyb & H5).
-  change (C_stmt_list (CT_Statement SK_Normal) false P_semicolon) with stmt_list_call.
-  cbn [plain_sum C' cSt cSB ctx c_level ParserGrammar.L] in H5.
-  replace (1 + (0 + (1 + plain_sum C)))%Z with (1 + plain_sum C + 1)%Z in H5 by lia.
-  replace (clamp_u16 (0 + (1 + plain_sum C))) with (lvl (1 + plain_sum C)) in * by (unfold lvl; f_equal; lia).
-  pose proof (pop_ctx_ST _ _ _ _ _ _ _ _ _ _ _ H5) as H6.
-  fold e in H6.
-  set (sB := pop_ctx pass (RUN (S f) stmt_list_call (push_ctx pass cSB (finish_logical_line pass (next_token pass (push_ctx pass cSt (finish_logical_line pass s))))))) in *.
-  (* `end` *)
-  assert (He : nth_error T e = Some tEnd).
-  { specialize (Hb (length (render b)) tEnd). rewrite nth_error_app2, Nat.sub_diag in Hb by lia. exact (Hb eq_refl). }
-  assert (Hen : e < n) by (apply nth_error_Some; congruence).
-  cbv zeta.
-  rewrite (ST_cur_tt _ _ _ _ _ _ _ _ _ _ _ H6 He). cbn [tEnd o_kw_end].
-  pose proof (next_token_ST _ _ _ _ _ _ _ _ _ _ H6 Hen) as H7. cbn [app] in H7.
-  rewrite (ST_cur_tt _ _ _ _ _ _ _ _ _ _ _ H7 Hse). cbn [tSemi o_dot].
-  rewrite (take_until_ending _ _ (ST_err _ _ _ _ _ _ _ _ _ _ H7)).
-  2: { rewrite (ST_cur_tt _ _ _ _ _ _ _ _ _ _ _ H7 Hse). discriminate. }
-  2: { unfold no_more_separators. rewrite (ST_cur_tt _ _ _ _ _ _ _ _ _ _ _ H7 Hse). reflexivity. }
-  2: { unfold is_ending. rewrite (ending_St_SB _ _ _ _ _ _ _ _ _ _ _ H7 Hse). reflexivity. }
-  pose proof (finish_ST _ _ _ _ _ _ _ _ _ _ H7 ltac:(discriminate)) as H8.
-  cbn [first_parent plain_sum C' cSt cSB ctx c_level ParserGrammar.L] in H8. rewrite HC, Tyb in H8.
-  replace (clamp_u16 (0 + (1 + plain_sum C))) with (lvl (1 + plain_sum C)) in H8 by (unfold lvl; f_equal; lia).
-  unfold s_loop.
-  rewrite (run_S _ C_structures _ (ST_err _ _ _ _ _ _ _ _ _ _ H8)).
-  unfold arm_structures. rewrite (ST_cur_tt _ _ _ _ _ _ _ _ _ _ _ H8 Hse). cbn [tSemi].
-  rewrite (ending_St_SB _ _ _ _ _ _ _ _ _ _ _ H8 Hse). cbn [tSemi].
-  pose proof (update_statuses_ST 1 _ _ _ _ _ _ _ _ _ _ H8) as H9. cbn [mark_ended C'] in H9.
-  pose proof (pop_ctx_ST _ _ _ _ _ _ _ _ _ _ _ H9) as H10.
-  pose proof (finish_empty_ST _ _ _ _ _ _ _ _ _ H10) as H11.
-  pose proof (take_separators_ST (CL_Level 0%Z) _ _ _ _ _ _ _ _ _ t' H11 Hse Hse1 Hne) as H12.
-  rewrite !app_length, map_length in H12. cbn [length] in H12.
-  match type of H12 with ?len < _ -> _ => assert (Hlen : len = length Ls + S (length (expected (1 + plain_sum C + 1) (S k) b))) by lia end.
-  rewrite Hlen in H12.
-  match type of H12 with _ -> nth ?i ?l [] <> [] -> _ =>
-    assert (Hn : nth i l [] = [e]) by
-      (replace i with (length ((Ls ++ [[k]]) ++ map ll_toks (expected (1 + plain_sum C + 1) (S k) b))) by (rewrite !app_length, map_length; cbn [length]; lia);
-       apply nth_app_last) end.
-  rewrite Hn in H12. specialize (H12 ltac:(lia) ltac:(discriminate)).
-  match type of H12 with ST _ _ (upd_nth ?i ?g ?l) _ _ _ _ _ _ _ =>
-    replace (upd_nth i g l) with ((Ls ++ [[k]]) ++ map ll_toks (expected (1 + plain_sum C + 1) (S k) b) ++ [[e; S e]]) in H12 end.
-  2: { replace (length Ls + S (length (expected (1 + plain_sum C + 1) (S k) b)))
-         with (length ((Ls ++ [[k]]) ++ map ll_toks (expected (1 + plain_sum C + 1) (S k) b))) by (rewrite !app_length, map_length; cbn [length]; lia).
-       rewrite upd_nth_app_last, app_assoc. reflexivity. }
-  eexists. split; [|repeat rewrite <- app_assoc in H12; cbn [app] in H12; exact H12]. reflexivity.
-Qed.
-
 Lemma ST_lists s k Ls Ls' c M M' mc last cx lv a :
   ST s k Ls c M mc last cx lv a -> Ls = Ls' -> M = M' -> ST s k Ls' c M' mc last cx lv a.
 Proof. intros H -> ->. exact H. Qed.
 
-(* ---------------- the statement-list loop on any statement list of the fragment *)
-Lemma head_tok r : exists t', nth_error (render r ++ [tEnd]) 0 = Some t' /\ t' <> tSemi /\ t' <> RTT_Eof
-  /\ (r = SNil -> t' = tEnd) /\ (r <> SNil -> t' <> tEnd).
-Proof. destruct r; cbn; eexists; (split; [reflexivity|]); repeat split; try discriminate; try congruence. Qed.
+Lemma head_tok r : exists t', nth_error (render r ++ [tTerm bk]) 0 = Some t' /\ t' <> tSemi
+  /\ (r = SNil -> t' = tTerm bk) /\ (r <> SNil -> is_term bk t' = false /\ t' <> RTT_Eof).
+Proof.
+  destruct r; cbn; eexists; (split; [reflexivity|]); repeat split; try discriminate; try congruence.
+  all: try (destruct bk; discriminate).
+Qed.
 Lemma toks_at_0 k l t : toks_at k l -> nth_error l 0 = Some t -> nth_error T k = Some t.
 Proof. intros H H0. specialize (H 0 t H0). rewrite Nat.add_0_r in H. exact H. Qed.
 Lemma toks_at_shift k m l1 l2 : toks_at k (l1 ++ l2) -> length l1 = m -> toks_at (k + m) l2.
@@ -690,43 +642,332 @@ Proof. intros H j t Hj. apply H. rewrite nth_error_app1; [exact Hj|]. apply nth_
 
 Lemma loop_tail r C : IHfor r C ->
   forall f s3 k2 L2 M2 mc2 last2 lv a, need r <= f -> lm_type mc2 = LLT_Unknown ->
-  ST s3 k2 L2 [] M2 mc2 last2 ((cSB, false) :: C) lv a -> toks_at k2 (render r ++ [tEnd]) ->
+  ST s3 k2 L2 [] M2 mc2 last2 ((cSB, false) :: C) lv a -> toks_at k2 (render r ++ [tTerm bk]) ->
   exists mc' last' fl, lm_type mc' = LLT_Unknown /\
     ST (if is_ending pass s3 || match cur_tt pass s3 with None => true | Some _ => false end then s3 else RUN f stmt_list_call s3)
        (k2 + length (render r)) (L2 ++ map ll_toks (expected (1 + plain_sum C) k2 r)) []
        (M2 ++ map meta_of (expected (1 + plain_sum C) k2 r)) mc' last' ((cSB, fl) :: C) lv a.
 Proof.
   intros IHr f s3 k2 L2 M2 mc2 last2 lv a Hf Hty H Ht.
-  destruct (head_tok r) as (t' & H0 & N1 & N2 & E1 & E2).
+  destruct (head_tok r) as (t' & H0 & N1 & E1 & E2).
   pose proof (toks_at_0 _ _ _ Ht H0) as Hk. rewrite (is_ending_SB _ _ _ _ _ _ _ _ _ _ _ H Hk).
-  destruct r as [|r'|r'|b' r'] eqn:Er.
-  - rewrite (E1 eq_refl). cbn [tEnd orb render length expected map]. rewrite !app_nil_r, Nat.add_0_r. eauto.
-  - assert (X : t' = tI) by (cbn in H0; congruence). subst t'.
+  destruct r as [|r'|r'|b' r'|b' r'|b' c' r'] eqn:Er.
+  - rewrite (E1 eq_refl), is_term_term. cbn [orb render length expected map]. rewrite !app_nil_r, Nat.add_0_r. eauto.
+  - destruct (E2 ltac:(discriminate)) as [F1 F2]. rewrite F1.
+    assert (X : t' = tI) by (cbn in H0; congruence). subst t'.
     rewrite (ST_cur_tt _ _ _ _ _ _ _ _ _ _ _ H Hk). cbn [tI orb]. exact (IHr _ _ _ _ _ _ _ _ _ Hf H Ht).
-  - assert (X : t' = tI) by (cbn in H0; congruence). subst t'.
+  - destruct (E2 ltac:(discriminate)) as [F1 F2]. rewrite F1.
+    assert (X : t' = tI) by (cbn in H0; congruence). subst t'.
     rewrite (ST_cur_tt _ _ _ _ _ _ _ _ _ _ _ H Hk). cbn [tI orb]. exact (IHr _ _ _ _ _ _ _ _ _ Hf H Ht).
-  - assert (X : t' = tBegin) by (cbn in H0; congruence). subst t'.
+  - destruct (E2 ltac:(discriminate)) as [F1 F2]. rewrite F1.
+    assert (X : t' = tBegin) by (cbn in H0; congruence). subst t'.
     rewrite (ST_cur_tt _ _ _ _ _ _ _ _ _ _ _ H Hk). cbn [tBegin orb]. exact (IHr _ _ _ _ _ _ _ _ _ Hf H Ht).
+  - destruct (E2 ltac:(discriminate)) as [F1 F2]. rewrite F1.
+    assert (X : t' = tRepeat) by (cbn in H0; congruence). subst t'.
+    rewrite (ST_cur_tt _ _ _ _ _ _ _ _ _ _ _ H Hk). cbn [tRepeat orb]. exact (IHr _ _ _ _ _ _ _ _ _ Hf H Ht).
+  - destruct (E2 ltac:(discriminate)) as [F1 F2]. rewrite F1.
+    assert (X : t' = tTry) by (cbn in H0; congruence). subst t'.
+    rewrite (ST_cur_tt _ _ _ _ _ _ _ _ _ _ _ H Hk). cbn [tTry orb]. exact (IHr _ _ _ _ _ _ _ _ _ Hf H Ht).
 Qed.
 
-Theorem stmts_run : forall ss C, first_parent C = None -> IHfor ss C.
+(* level bookkeeping under a statement context on top of a block *)
+Lemma first_parent_St_blk f1 f2 C : first_parent ((cSt, f1) :: (cSB, f2) :: C) = first_parent C.
+Proof. destruct bk; reflexivity. Qed.
+Lemma plain_sum_St_blk f1 f2 C : plain_sum ((cSt, f1) :: (cSB, f2) :: C) = (0 + (1 + plain_sum C))%Z.
+Proof. destruct bk; reflexivity. Qed.
+
+(* `until Identifier` : parse_statement inside the BlockClause context *)
+Definition cBC : pctx := ctx CT_BlockClause false P_never (ParserGrammar.L 0).
+Lemma ending_BC s k Ls c M mc last C lv a t :
+  ST s k Ls c M mc last ((cBC, false) :: (cSt, false) :: (cSB, false) :: C) lv a -> nth_error T k = Some t ->
+  ending_ctx pass s = match t with RTT_Op OK_Semicolon => Some 2 | _ => if is_term bk t then Some 3 else None end.
 Proof.
-  induction ss as [|r IHr|r IHr|b IHb r IHr]; intros C HC f s k Ls M mc last lv a Hf H Ht; unfold Post.
+  intros H Ht. unfold ending_ctx. rewrite (ST_ctx _ _ _ _ _ _ _ _ _ _ H). cbn [ending_go cBC cSt ctx c_pred c_opaque eval_pred].
+  rewrite (blk_pred_eval bk _ _ _ _ _ _ _ _ _ _ _ H Ht), cBlk_opaque.
+  rewrite (ST_cur_tt _ _ _ _ _ _ _ _ _ _ _ H Ht). pose proof (plain_nth _ _ Ht) as P.
+  destruct t as [o| |k0|k0| | | | | | |]; try contradiction; try reflexivity.
+  all: try (destruct o; try contradiction; reflexivity).
+  all: try (destruct k0; try contradiction; cbn [o_semicolon]; destruct (is_term bk _); reflexivity).
+Qed.
+Lemma statement_in_clause f s k Ls c M mc last C lv a :
+  ST s k Ls c M mc last ((cBC, false) :: (cSt, false) :: (cSB, false) :: C) lv a -> c <> [] ->
+  nth_error T k = Some tI -> nth_error T (S k) = Some tSemi -> 2 <= f ->
+  ST (RUN f C_statement s) (S k) Ls (c ++ [k]) M mc last ((cBC, true) :: (cSt, true) :: (cSB, false) :: C) lv a.
+Proof.
+  intros H Hc Hk Hk1 Hf. destruct f as [|[|f]]; try lia.
+  assert (Hkn : k < n) by (apply nth_error_Some; congruence).
+  rewrite (run_S _ C_statement _ (ST_err _ _ _ _ _ _ _ _ _ _ H)).
+  unfold arm_statement. rewrite (ST_cur_tt _ _ _ _ _ _ _ _ _ _ _ H Hk). cbn [tI].
+  assert (P1 : statement_prelude pass s = (s, true)).
+  { unfold statement_prelude. rewrite (last_ctx_ST _ _ _ _ _ _ _ _ _ _ _ _ H), (ending_BC _ _ _ _ _ _ _ _ _ _ _ H Hk). cbn [tI is_term].
+    rewrite (ST_at_start _ _ _ _ _ _ _ _ _ _ H). destruct c; [contradiction|reflexivity]. }
+  rewrite P1. cbn [negb starm_of tI]. unfold st_label_cand, label_or_other. rewrite (ST_at_start _ _ _ _ _ _ _ _ _ _ H).
+  destruct c as [|c0 cr]; [contradiction|]. cbn [andb]. unfold t_other, t_loop.
+  pose proof (next_token_ST _ _ _ _ _ _ _ _ _ _ H Hkn) as H1.
+  rewrite (run_S _ C_statement _ (ST_err _ _ _ _ _ _ _ _ _ _ H1)).
+  unfold arm_statement. rewrite (ST_cur_tt _ _ _ _ _ _ _ _ _ _ _ H1 Hk1). cbn [tSemi].
+  assert (P2 : statement_prelude pass (next_token pass s) = (update_statuses pass 2 (next_token pass s), false)).
+  { unfold statement_prelude. rewrite (last_ctx_ST _ _ _ _ _ _ _ _ _ _ _ _ H1), (ending_BC _ _ _ _ _ _ _ _ _ _ _ H1 Hk1). reflexivity. }
+  rewrite P2. cbn [negb].
+  pose proof (update_statuses_ST 2 _ _ _ _ _ _ _ _ _ _ H1) as H2. cbn [mark_ended] in H2. exact H2.
+Qed.
+
+(* the end of an iteration of the statement-list loop: the statement context has just ended in front of
+   the `;` that follows the last finished line `ln`; the `;` is appended to that line *)
+Lemma iter_close sX e' Ly ln Mx mcX C lv a t' :
+  ST sX (S e') (Ly ++ [ln]) [] Mx mcX (length Ly) ((cSt, true) :: (cSB, false) :: C) lv a -> ln <> [] ->
+  nth_error T (S e') = Some tSemi -> nth_error T (S (S e')) = Some t' -> t' <> tSemi ->
+  ST (take_separators_on_last_line pass (CL_Level 0%Z) (finish_logical_line pass (pop_ctx pass sX)))
+     (S (S e')) (Ly ++ [ln ++ [S e']]) [] Mx (mkLM (lm_parent mcX) (lm_level mcX) LLT_Unknown) (length Ly) ((cSB, false) :: C) lv a.
+Proof.
+  intros H Hln Hs Hs1 Hne.
+  pose proof (pop_ctx_ST _ _ _ _ _ _ _ _ _ _ _ H) as H1.
+  pose proof (finish_empty_ST _ _ _ _ _ _ _ _ _ H1) as H2.
+  pose proof (take_separators_ST (CL_Level 0%Z) _ _ _ _ _ _ _ _ _ t' H2 Hs Hs1 Hne) as H3.
+  rewrite app_length in H3. cbn [length] in H3. rewrite nth_app_last in H3.
+  specialize (H3 ltac:(lia) Hln). rewrite upd_nth_app_last in H3. exact H3.
+Qed.
+(* a closing keyword (`end`) followed by `;` inside a statement context: the keyword makes a line of its
+   own, parse_structures returns in front of the `;` with the statement context marked as ended *)
+Lemma close_keyword f s e Lx Mx mcb lastb C lv a tk :
+  ST s e Lx [] Mx mcb lastb ((cSt, false) :: (cSB, false) :: C) lv a -> lm_type mcb = LLT_Unknown ->
+  first_parent C = None -> nth_error T e = Some tk -> nth_error T (S e) = Some tSemi -> 1 <= f ->
+  ST (RUN f C_structures (finish_logical_line pass (take_until pass (no_more_separators pass) (next_token pass s))))
+     (S e) (Lx ++ [[e]]) [] (Mx ++ [mkLM None (lvl (1 + plain_sum C)) LLT_Unknown])
+     (mkLM None (lvl (1 + plain_sum C)) LLT_Unknown) (length Lx) ((cSt, true) :: (cSB, false) :: C) lv a.
+Proof.
+  intros H Ty HC He Hs Hf. destruct f as [|f]; [lia|].
+  assert (Hen : e < n) by (apply nth_error_Some; congruence).
+  pose proof (next_token_ST _ _ _ _ _ _ _ _ _ _ H Hen) as H7. cbn [app] in H7.
+  rewrite (take_until_ending _ _ (ST_err _ _ _ _ _ _ _ _ _ _ H7)).
+  2: { rewrite (ST_cur_tt _ _ _ _ _ _ _ _ _ _ _ H7 Hs). discriminate. }
+  2: { unfold no_more_separators. rewrite (ST_cur_tt _ _ _ _ _ _ _ _ _ _ _ H7 Hs). reflexivity. }
+  2: { unfold is_ending. rewrite (ending_St_SB _ _ _ _ _ _ _ _ _ _ _ H7 Hs). reflexivity. }
+  pose proof (finish_ST _ _ _ _ _ _ _ _ _ _ H7 ltac:(discriminate)) as H8.
+  rewrite first_parent_St_blk, plain_sum_St_blk, HC, Ty in H8.
+  replace (clamp_u16 (0 + (1 + plain_sum C))) with (lvl (1 + plain_sum C)) in H8 by (unfold lvl; f_equal; lia).
+  rewrite (run_S _ C_structures _ (ST_err _ _ _ _ _ _ _ _ _ _ H8)).
+  unfold arm_structures. rewrite (ST_cur_tt _ _ _ _ _ _ _ _ _ _ _ H8 Hs). cbn [tSemi].
+  rewrite (ending_St_SB _ _ _ _ _ _ _ _ _ _ _ H8 Hs). cbn [tSemi].
+  pose proof (update_statuses_ST 1 _ _ _ _ _ _ _ _ _ _ H8) as H9. cbn [mark_ended] in H9. exact H9.
+Qed.
+(* entering a nested block after its opening keyword: the keyword makes a line at the statement level,
+   the block context is pushed *)
+Lemma open_block f s k Ls M mc last C lv a bk' :
+  ST s k Ls [] M mc last ((cSt, false) :: (cSB, false) :: C) lv a -> lm_type mc = LLT_Unknown ->
+  first_parent C = None -> k < n ->
+  let s1 := push_ctx pass (cBlk bk') (finish_logical_line pass (next_token pass s)) in
+  RUN (S (S f)) (C_stmt_block (cBlk bk') SK_Normal) (next_token pass s) = pop_ctx pass (RUN f stmt_list_call s1)
+  /\ ST s1 (S k) (Ls ++ [[k]]) [] (M ++ [mkLM None (lvl (1 + plain_sum C)) LLT_Unknown])
+        (mkLM None (lvl (1 + plain_sum C)) LLT_Unknown) (length Ls)
+        ((cBlk bk', false) :: (cSt, false) :: (cSB, false) :: C) lv a.
+Proof.
+  intros H Ty HC Hkn s1.
+  pose proof (next_token_ST _ _ _ _ _ _ _ _ _ _ H Hkn) as H2. cbn [app] in H2.
+  split.
+  - rewrite (run_S _ (C_stmt_block (cBlk bk') SK_Normal) _ (ST_err _ _ _ _ _ _ _ _ _ _ H2)). unfold arm_stmt_block.
+    rewrite (with_ctx_stmt_list _ (cBlk bk') _ _ (ST_err _ _ _ _ _ _ _ _ _ _ H2) (cBlk_level bk')). reflexivity.
+  - pose proof (finish_ST _ _ _ _ _ _ _ _ _ _ H2 ltac:(discriminate)) as H3.
+    rewrite first_parent_St_blk, plain_sum_St_blk, HC, Ty in H3.
+    replace (clamp_u16 (0 + (1 + plain_sum C))) with (lvl (1 + plain_sum C)) in H3 by (unfold lvl; f_equal; lia).
+    exact (push_ctx_ST (cBlk bk') _ _ _ _ _ _ _ _ _ _ H3).
+Qed.
+End Blk.
+
+(* ================================================================== *)
+(* the nested constructs; the outer block kind bk is arbitrary *)
+Notation RUN := (run pass []).
+Ltac outer_open H Hk :=
+  rewrite (with_ctx_structures _ cSt _ (ST_err _ _ _ _ _ _ _ _ _ _ H) eq_refl).
+
+Lemma iter_block bk b f s k Ls M mc last C lv a t' :
+  IHfor KBegin b ((cSt, false) :: (cBlk bk, false) :: C) ->
+  ST s k Ls [] M mc last ((cBlk bk, false) :: C) lv a -> first_parent C = None ->
+  nth_error T k = Some tBegin -> toks_at (S k) (render b ++ [tEnd]) ->
+  nth_error T (S (S k + length (render b))) = Some tSemi ->
+  nth_error T (S (S (S k + length (render b)))) = Some t' -> t' <> tSemi ->
+  8 + need b <= f ->
+  let e := S k + length (render b) in
+  exists mc3, lm_type mc3 = LLT_Unknown /\
+  ST (take_separators_on_last_line pass (CL_Level 0%Z) (finish_logical_line pass (RUN f (C_with_ctx cSt A_structures) s)))
+     (S (S e)) (Ls ++ [k] :: map ll_toks (expected (1 + plain_sum C + 1) (S k) b) ++ [[e; S e]]) []
+     (M ++ mkLM None (lvl (1 + plain_sum C)) LLT_Unknown :: map meta_of (expected (1 + plain_sum C + 1) (S k) b)
+        ++ [mkLM None (lvl (1 + plain_sum C)) LLT_Unknown])
+     mc3 (length Ls + S (length (expected (1 + plain_sum C + 1) (S k) b))) ((cBlk bk, false) :: C) lv a.
+Proof.
+  intros IHb H HC Hk Hb Hse Hse1 Hne Hf e.
+  assert (Hkn : k < n) by (apply nth_error_Some; congruence).
+  destruct f as [|[|[|[|f]]]]; try lia.
+  rewrite (with_ctx_structures _ cSt s (ST_err _ _ _ _ _ _ _ _ _ _ H) eq_refl).
+  pose proof (finish_empty_ST _ _ _ _ _ _ _ _ _ H) as H0.
+  pose proof (push_ctx_ST cSt _ _ _ _ _ _ _ _ _ _ H0) as H1.
+  rewrite (run_S _ C_structures _ (ST_err _ _ _ _ _ _ _ _ _ _ H1)).
+  unfold arm_structures. rewrite (ST_cur_tt _ _ _ _ _ _ _ _ _ _ _ H1 Hk). cbn [tBegin].
+  rewrite (ending_St_SB bk _ _ _ _ _ _ _ _ _ _ _ H1 Hk). cbn [tBegin is_term sarm_of].
+  cbv delta [sa_begin stmt_block] beta.
+  change (ctx (CT_StatementBlock BK_Begin) true P_end (ParserGrammar.L 1)) with (cBlk KBegin).
+  destruct (open_block bk f _ _ _ _ _ _ _ _ _ KBegin H1 eq_refl HC Hkn) as [Eq H4]. rewrite Eq. clear Eq.
+  destruct (IHb f _ _ _ _ _ _ _ _ ltac:(lia) H4 Hb) as (mcb & lastb & flb & Tyb & H5).
+  rewrite plain_sum_St_blk in H5. replace (1 + (0 + (1 + plain_sum C)))%Z with (1 + plain_sum C + 1)%Z in H5 by lia.
+  pose proof (pop_ctx_ST _ _ _ _ _ _ _ _ _ _ _ H5) as H6. fold e in H6.
+  match type of H6 with ST ?x _ _ _ _ _ _ _ _ _ => set (sB := x) in * end.
+  assert (He : nth_error T e = Some tEnd).
+  { specialize (Hb (length (render b)) tEnd). rewrite nth_error_app2, Nat.sub_diag in Hb by lia. exact (Hb eq_refl). }
+  assert (Hen : e < n) by (apply nth_error_Some; congruence).
+  cbv zeta. rewrite (ST_cur_tt _ _ _ _ _ _ _ _ _ _ _ H6 He). cbn [tEnd o_kw_end].
+  pose proof (next_token_ST _ _ _ _ _ _ _ _ _ _ H6 Hen) as H7.
+  rewrite (ST_cur_tt _ _ _ _ _ _ _ _ _ _ _ H7 Hse). cbn [tSemi o_dot]. unfold s_loop.
+  pose proof (close_keyword bk (S (S f)) _ _ _ _ _ _ _ _ _ tEnd H6 Tyb HC He Hse ltac:(lia)) as H9.
+  pose proof (iter_close bk _ _ _ _ _ _ _ _ _ t' H9 ltac:(discriminate) Hse Hse1 Hne) as H12.
+  assert (EL : length ((Ls ++ [[k]]) ++ map ll_toks (expected (1 + plain_sum C + 1) (S k) b)) = length Ls + S (length (expected (1 + plain_sum C + 1) (S k) b)))
+    by (rewrite !app_length, map_length; cbn [length]; lia).
+  rewrite EL in H12.
+  eexists. split; [|eapply ST_lists; [exact H12| |]].
+  - reflexivity.
+  - cbn [app]. repeat (progress (cbn [app]; rewrite <- ?app_assoc)). reflexivity.
+  - repeat (progress (cbn [app]; rewrite <- ?app_assoc)). reflexivity.
+Qed.
+
+Lemma iter_repeat bk b f s k Ls M mc last C lv a t' :
+  IHfor KRepeat b ((cSt, false) :: (cBlk bk, false) :: C) ->
+  ST s k Ls [] M mc last ((cBlk bk, false) :: C) lv a -> first_parent C = None ->
+  nth_error T k = Some tRepeat -> toks_at (S k) (render b ++ [tUntil]) ->
+  nth_error T (S (S k + length (render b))) = Some tI ->
+  nth_error T (S (S (S k + length (render b)))) = Some tSemi ->
+  nth_error T (S (S (S (S k + length (render b))))) = Some t' -> t' <> tSemi ->
+  8 + need b <= f ->
+  let e := S k + length (render b) in
+  exists mc3 last3, lm_type mc3 = LLT_Unknown /\
+  ST (take_separators_on_last_line pass (CL_Level 0%Z) (finish_logical_line pass (RUN f (C_with_ctx cSt A_structures) s)))
+     (S (S (S e))) (Ls ++ [k] :: map ll_toks (expected (1 + plain_sum C + 1) (S k) b) ++ [[e; S e; S (S e)]]) []
+     (M ++ mkLM None (lvl (1 + plain_sum C)) LLT_Unknown :: map meta_of (expected (1 + plain_sum C + 1) (S k) b)
+        ++ [mkLM None (lvl (1 + plain_sum C)) LLT_Unknown])
+     mc3 last3 ((cBlk bk, false) :: C) lv a.
+Proof.
+  intros IHb H HC Hk Hb Hi Hse Hse1 Hne Hf e.
+  assert (Hkn : k < n) by (apply nth_error_Some; congruence).
+  destruct f as [|[|[|[|f]]]]; try lia.
+  rewrite (with_ctx_structures _ cSt s (ST_err _ _ _ _ _ _ _ _ _ _ H) eq_refl).
+  pose proof (finish_empty_ST _ _ _ _ _ _ _ _ _ H) as H0.
+  pose proof (push_ctx_ST cSt _ _ _ _ _ _ _ _ _ _ H0) as H1.
+  rewrite (run_S _ C_structures _ (ST_err _ _ _ _ _ _ _ _ _ _ H1)).
+  unfold arm_structures. rewrite (ST_cur_tt _ _ _ _ _ _ _ _ _ _ _ H1 Hk). cbn [tRepeat].
+  rewrite (ending_St_SB bk _ _ _ _ _ _ _ _ _ _ _ H1 Hk). cbn [tRepeat is_term sarm_of].
+  cbv delta [sa_repeat stmt_block] beta.
+  change (ctx (CT_StatementBlock BK_Repeat) true P_until (ParserGrammar.L 1)) with (cBlk KRepeat).
+  destruct (open_block bk f _ _ _ _ _ _ _ _ _ KRepeat H1 eq_refl HC Hkn) as [Eq H4]. rewrite Eq. clear Eq.
+  destruct (IHb f _ _ _ _ _ _ _ _ ltac:(lia) H4 Hb) as (mcb & lastb & flb & Tyb & H5).
+  rewrite plain_sum_St_blk in H5. replace (1 + (0 + (1 + plain_sum C)))%Z with (1 + plain_sum C + 1)%Z in H5 by lia.
+  pose proof (pop_ctx_ST _ _ _ _ _ _ _ _ _ _ _ H5) as H6. fold e in H6.
+  match type of H6 with ST ?x _ _ _ _ _ _ _ _ _ => set (sB := x) in * end.
+  assert (He : nth_error T e = Some tUntil).
+  { specialize (Hb (length (render b)) tUntil). rewrite nth_error_app2, Nat.sub_diag in Hb by lia. exact (Hb eq_refl). }
+  assert (Hen : e < n) by (apply nth_error_Some; congruence).
+  cbv zeta.
+  (* `until` Identifier *)
+  pose proof (next_token_ST _ _ _ _ _ _ _ _ _ _ H6 Hen) as H7. cbn [app] in H7.
+  change (ctx CT_BlockClause false P_never (ParserGrammar.L 0)) with cBC.
+  pose proof (push_ctx_ST cBC _ _ _ _ _ _ _ _ _ _ H7) as H8.
+  pose proof (statement_in_clause bk (S (S f)) _ _ _ _ _ _ _ _ _ _ H8 ltac:(discriminate) Hi Hse ltac:(lia)) as H9. cbn [app] in H9.
+  pose proof (pop_ctx_ST _ _ _ _ _ _ _ _ _ _ _ H9) as H10.
+  rewrite (take_until_ending _ _ (ST_err _ _ _ _ _ _ _ _ _ _ H10)).
+  2: { rewrite (ST_cur_tt _ _ _ _ _ _ _ _ _ _ _ H10 Hse). discriminate. }
+  2: { unfold no_more_separators. rewrite (ST_cur_tt _ _ _ _ _ _ _ _ _ _ _ H10 Hse). reflexivity. }
+  2: { unfold is_ending. rewrite (ending_St_ended _ _ _ _ _ _ _ _ _ _ H10). reflexivity. }
+  pose proof (finish_ST _ _ _ _ _ _ _ _ _ _ H10 ltac:(discriminate)) as H11.
+  rewrite (first_parent_St_blk bk), (plain_sum_St_blk bk), HC, Tyb in H11.
+  replace (clamp_u16 (0 + (1 + plain_sum C))) with (lvl (1 + plain_sum C)) in H11 by (unfold lvl; f_equal; lia).
+  unfold s_loop.
+  rewrite (run_S _ C_structures _ (ST_err _ _ _ _ _ _ _ _ _ _ H11)).
+  unfold arm_structures. rewrite (ST_cur_tt _ _ _ _ _ _ _ _ _ _ _ H11 Hse). cbn [tSemi].
+  rewrite (ending_St_ended _ _ _ _ _ _ _ _ _ _ H11).
+  pose proof (update_statuses_ST 1 _ _ _ _ _ _ _ _ _ _ H11) as H12. cbn [mark_ended] in H12.
+  pose proof (iter_close bk _ _ _ _ _ _ _ _ _ t' H12 ltac:(discriminate) Hse Hse1 Hne) as H13.
+  eexists _, _. split; [|eapply ST_lists; [exact H13| |]].
+  - reflexivity.
+  - cbn [app]. repeat (progress (cbn [app]; rewrite <- ?app_assoc)). reflexivity.
+  - repeat (progress (cbn [app]; rewrite <- ?app_assoc)). reflexivity.
+Qed.
+
+Lemma iter_try bk b c f s k Ls M mc last C lv a t' :
+  IHfor KTry b ((cSt, false) :: (cBlk bk, false) :: C) -> IHfor KFinally c ((cSt, false) :: (cBlk bk, false) :: C) ->
+  ST s k Ls [] M mc last ((cBlk bk, false) :: C) lv a -> first_parent C = None ->
+  nth_error T k = Some tTry -> toks_at (S k) (render b ++ [tFinally]) ->
+  toks_at (S (S k + length (render b))) (render c ++ [tEnd]) ->
+  nth_error T (S (S (S k + length (render b)) + length (render c))) = Some tSemi ->
+  nth_error T (S (S (S (S k + length (render b)) + length (render c)))) = Some t' -> t' <> tSemi ->
+  8 + need b + need c <= f ->
+  let m := S k + length (render b) in
+  let e := S m + length (render c) in
+  exists mc3 last3, lm_type mc3 = LLT_Unknown /\
+  ST (take_separators_on_last_line pass (CL_Level 0%Z) (finish_logical_line pass (RUN f (C_with_ctx cSt A_structures) s)))
+     (S (S e))
+     (Ls ++ [k] :: map ll_toks (expected (1 + plain_sum C + 1) (S k) b) ++ [m] :: map ll_toks (expected (1 + plain_sum C + 1) (S m) c) ++ [[e; S e]]) []
+     (M ++ mkLM None (lvl (1 + plain_sum C)) LLT_Unknown :: map meta_of (expected (1 + plain_sum C + 1) (S k) b)
+        ++ mkLM None (lvl (1 + plain_sum C)) LLT_Unknown :: map meta_of (expected (1 + plain_sum C + 1) (S m) c)
+        ++ [mkLM None (lvl (1 + plain_sum C)) LLT_Unknown])
+     mc3 last3 ((cBlk bk, false) :: C) lv a.
+Proof.
+  intros IHb IHc H HC Hk Hb Hcn Hse Hse1 Hne Hf m e.
+  assert (Hkn : k < n) by (apply nth_error_Some; congruence).
+  destruct f as [|[|[|[|f]]]]; try lia.
+  rewrite (with_ctx_structures _ cSt s (ST_err _ _ _ _ _ _ _ _ _ _ H) eq_refl).
+  pose proof (finish_empty_ST _ _ _ _ _ _ _ _ _ H) as H0.
+  pose proof (push_ctx_ST cSt _ _ _ _ _ _ _ _ _ _ H0) as H1.
+  rewrite (run_S _ C_structures _ (ST_err _ _ _ _ _ _ _ _ _ _ H1)).
+  unfold arm_structures. rewrite (ST_cur_tt _ _ _ _ _ _ _ _ _ _ _ H1 Hk). cbn [tTry].
+  rewrite (ending_St_SB bk _ _ _ _ _ _ _ _ _ _ _ H1 Hk). cbn [tTry is_term sarm_of].
+  cbv delta [sa_try stmt_block] beta.
+  change (ctx (CT_StatementBlock BK_Try) true P_except_finally (ParserGrammar.L 1)) with (cBlk KTry).
+  destruct (open_block bk f _ _ _ _ _ _ _ _ _ KTry H1 eq_refl HC Hkn) as [Eq H4]. rewrite Eq. clear Eq.
+  destruct (IHb f _ _ _ _ _ _ _ _ ltac:(lia) H4 Hb) as (mcb & lastb & flb & Tyb & H5).
+  rewrite plain_sum_St_blk in H5. replace (1 + (0 + (1 + plain_sum C)))%Z with (1 + plain_sum C + 1)%Z in H5 by lia.
+  pose proof (pop_ctx_ST _ _ _ _ _ _ _ _ _ _ _ H5) as H6. fold m in H6.
+  match type of H6 with ST ?x _ _ _ _ _ _ _ _ _ => set (sB := x) in * end.
+  assert (Hm : nth_error T m = Some tFinally).
+  { specialize (Hb (length (render b)) tFinally). rewrite nth_error_app2, Nat.sub_diag in Hb by lia. exact (Hb eq_refl). }
+  assert (Hmn : m < n) by (apply nth_error_Some; congruence).
+  cbv zeta. rewrite (ST_cur_tt _ _ _ _ _ _ _ _ _ _ _ H6 Hm). cbn [tFinally].
+  change (ctx (CT_StatementBlock BK_Finally) true P_else_end (ParserGrammar.L 1)) with (cBlk KFinally).
+  (* `finally` and its block *)
+  destruct (open_block bk f _ _ _ _ _ _ _ _ _ KFinally H6 Tyb HC Hmn) as [Eq2 H4'].
+  fold m in Hcn. rewrite Eq2. clear Eq2.
+  destruct (IHc f _ _ _ _ _ _ _ _ ltac:(lia) H4' Hcn) as (mcc & lastc & flc & Tyc & H5').
+  rewrite plain_sum_St_blk in H5'. replace (1 + (0 + (1 + plain_sum C)))%Z with (1 + plain_sum C + 1)%Z in H5' by lia.
+  pose proof (pop_ctx_ST _ _ _ _ _ _ _ _ _ _ _ H5') as H6'. fold e in H6'.
+  match type of H6' with ST ?x _ _ _ _ _ _ _ _ _ => set (sC := x) in * end.
+  assert (He : nth_error T e = Some tEnd).
+  { specialize (Hcn (length (render c)) tEnd). rewrite nth_error_app2, Nat.sub_diag in Hcn by lia. exact (Hcn eq_refl). }
+  rewrite (ST_cur_tt _ _ _ _ _ _ _ _ _ _ _ H6' He). cbn [tEnd o_kw_else]. unfold s_loop.
+  pose proof (close_keyword bk (S (S f)) _ _ _ _ _ _ _ _ _ tEnd H6' Tyc HC He Hse ltac:(lia)) as H9.
+  pose proof (iter_close bk _ _ _ _ _ _ _ _ _ t' H9 ltac:(discriminate) Hse Hse1 Hne) as H12.
+  eexists _, _. split; [|eapply ST_lists; [exact H12| |]].
+  - reflexivity.
+  - cbn [app]. repeat (progress (cbn [app]; rewrite <- ?app_assoc)). reflexivity.
+  - repeat (progress (cbn [app]; rewrite <- ?app_assoc)). reflexivity.
+Qed.
+Theorem stmts_run : forall ss bk C, first_parent C = None -> IHfor bk ss C.
+Proof.
+  induction ss as [|r IHr|r IHr|b IHb r IHr|b IHb r IHr|b IHb c IHc r IHr]; intros bk C HC f s k Ls M mc last lv a Hf H Ht; unfold Post.
   - (* no statement: the loop runs once, in front of `end` *)
     unfold need in Hf. cbn [render length] in *. destruct f as [|[|[|f]]]; try lia.
     pose proof (toks_at_0 _ _ _ Ht eq_refl) as Hk.
+    assert (Hnt : tTerm bk <> tSemi) by (destruct bk; discriminate).
+    assert (Hct : cur_tt pass (push_ctx pass cSt (finish_logical_line pass s)) = Some (tTerm bk) -> True) by auto.
     unfold stmt_list_call. rewrite (stmt_list_unfold _ _ _ _ _ (ST_err _ _ _ _ _ _ _ _ _ _ H)). cbv zeta.
     change (ctx (CT_Statement SK_Normal) false P_semicolon (ParserGrammar.L 0)) with cSt.
     rewrite (with_ctx_structures _ cSt s (ST_err _ _ _ _ _ _ _ _ _ _ H) eq_refl).
     pose proof (finish_empty_ST _ _ _ _ _ _ _ _ _ H) as H0.
     pose proof (push_ctx_ST cSt _ _ _ _ _ _ _ _ _ _ H0) as H1.
     rewrite (run_S _ C_structures _ (ST_err _ _ _ _ _ _ _ _ _ _ H1)).
-    unfold arm_structures. rewrite (ST_cur_tt _ _ _ _ _ _ _ _ _ _ _ H1 Hk). cbn [tEnd].
-    rewrite (ending_St_SB _ _ _ _ _ _ _ _ _ _ _ H1 Hk). cbn [tEnd].
+    unfold arm_structures. rewrite (ST_cur_tt _ _ _ _ _ _ _ _ _ _ _ H1 Hk).
+    rewrite (ending_St_SB bk _ _ _ _ _ _ _ _ _ _ _ H1 Hk).
+    assert (X : match tTerm bk with RTT_Eof => None | _ => Some (tTerm bk) end = Some (tTerm bk)) by (destruct bk; reflexivity). rewrite X. clear X.
+    assert (X : match tTerm bk with RTT_Op OK_Semicolon => Some 1 | _ => if is_term bk (tTerm bk) then Some 2 else None end = Some 2) by (destruct bk; reflexivity). rewrite X. clear X.
     pose proof (update_statuses_ST 2 _ _ _ _ _ _ _ _ _ _ H1) as H2. cbn [mark_ended] in H2.
     pose proof (pop_ctx_ST _ _ _ _ _ _ _ _ _ _ _ H2) as H3.
     pose proof (finish_empty_ST _ _ _ _ _ _ _ _ _ H3) as H4.
-    rewrite (take_separators_noop _ _ _ _ _ _ _ _ _ _ _ tEnd H4 Hk) by discriminate.
+    rewrite (take_separators_noop _ _ _ _ _ _ _ _ _ _ _ (tTerm bk) H4 Hk) by exact Hnt.
     assert (IE : is_ending pass (finish_logical_line pass (pop_ctx pass (update_statuses pass 2 (push_ctx pass cSt (finish_logical_line pass s))))) = true).
     { unfold is_ending, ending_ctx. rewrite (ST_ctx _ _ _ _ _ _ _ _ _ _ H4). reflexivity. }
     rewrite IE. cbn [orb expected map]. rewrite !app_nil_r, Nat.add_0_r. eexists _, _, _. split; [|exact H4]. reflexivity.
@@ -734,14 +975,14 @@ Proof.
     unfold need in Hf. cbn [render length] in *. destruct f as [|f]; [lia|].
     pose proof (Ht 0 _ eq_refl) as Hk. rewrite Nat.add_0_r in Hk.
     pose proof (Ht 1 _ eq_refl) as Hk1. replace (k + 1) with (S k) in Hk1 by lia.
-    assert (Htr : toks_at (S (S k)) (render r ++ [tEnd])).
+    assert (Htr : toks_at (S (S k)) (render r ++ [tTerm bk])).
     { replace (S (S k)) with (k + 2) by lia. apply (toks_at_shift k 2 [tI; tSemi]); [exact Ht|reflexivity]. }
-    destruct (head_tok r) as (t' & H0 & N1 & _). pose proof (toks_at_0 _ _ _ Htr H0) as Hk2.
+    destruct (head_tok bk r) as (t' & H0 & N1 & _). pose proof (toks_at_0 _ _ _ Htr H0) as Hk2.
     unfold stmt_list_call. rewrite (stmt_list_unfold _ _ _ _ _ (ST_err _ _ _ _ _ _ _ _ _ _ H)). cbv zeta.
     change (ctx (CT_Statement SK_Normal) false P_semicolon (ParserGrammar.L 0)) with cSt.
-    pose proof (iter_simple f _ _ _ _ _ _ _ _ _ t' H HC Hk Hk1 Hk2 N1 ltac:(lia)) as H3.
+    pose proof (iter_simple bk f _ _ _ _ _ _ _ _ _ t' H HC Hk Hk1 Hk2 N1 ltac:(lia)) as H3.
     assert (Hn : need r <= f) by (unfold need; lia).
-    pose proof (fun Hty => loop_tail r C (IHr C HC) f _ _ _ _ _ _ _ _ Hn Hty H3 Htr) as LT.
+    pose proof (fun Hty => loop_tail bk r C (IHr bk C HC) f _ _ _ _ _ _ _ _ Hn Hty H3 Htr) as LT.
     destruct (LT eq_refl) as (mc' & last' & fl & Ty & H4).
     exists mc', last', fl. split; [exact Ty|].
     cbn [expected map]. replace (k + 1) with (S k) by lia. replace (k + 2) with (S (S k)) by lia.
@@ -753,14 +994,14 @@ Proof.
     pose proof (Ht 1 _ eq_refl) as Hk1. replace (k + 1) with (S k) in Hk1 by lia.
     pose proof (Ht 2 _ eq_refl) as Hk2. replace (k + 2) with (S (S k)) in Hk2 by lia.
     pose proof (Ht 3 _ eq_refl) as Hk3. replace (k + 3) with (S (S (S k))) in Hk3 by lia.
-    assert (Htr : toks_at (S (S (S (S k)))) (render r ++ [tEnd])).
+    assert (Htr : toks_at (S (S (S (S k)))) (render r ++ [tTerm bk])).
     { replace (S (S (S (S k)))) with (k + 4) by lia. apply (toks_at_shift k 4 [tI; tAssign; tI; tSemi]); [exact Ht|reflexivity]. }
-    destruct (head_tok r) as (t' & H0 & N1 & _). pose proof (toks_at_0 _ _ _ Htr H0) as Hk4.
+    destruct (head_tok bk r) as (t' & H0 & N1 & _). pose proof (toks_at_0 _ _ _ Htr H0) as Hk4.
     unfold stmt_list_call. rewrite (stmt_list_unfold _ _ _ _ _ (ST_err _ _ _ _ _ _ _ _ _ _ H)). cbv zeta.
     change (ctx (CT_Statement SK_Normal) false P_semicolon (ParserGrammar.L 0)) with cSt.
-    pose proof (iter_assign f _ _ _ _ _ _ _ _ _ t' H HC Hk Hk1 Hk2 Hk3 Hk4 N1 ltac:(lia)) as H3.
+    pose proof (iter_assign bk f _ _ _ _ _ _ _ _ _ t' H HC Hk Hk1 Hk2 Hk3 Hk4 N1 ltac:(lia)) as H3.
     assert (Hn : need r <= f) by (unfold need; lia).
-    pose proof (fun Hty => loop_tail r C (IHr C HC) f _ _ _ _ _ _ _ _ Hn Hty H3 Htr) as LT.
+    pose proof (fun Hty => loop_tail bk r C (IHr bk C HC) f _ _ _ _ _ _ _ _ Hn Hty H3 Htr) as LT.
     destruct (LT eq_refl) as (mc' & last' & fl & Ty & H4).
     exists mc', last', fl. split; [exact Ty|].
     cbn [expected map]. replace (k + 1) with (S k) by lia. replace (k + 2) with (S (S k)) by lia.
@@ -769,33 +1010,98 @@ Proof.
     rewrite <- !app_assoc in H4. cbn [app] in H4. exact H4.
   - (* begin b end ; *)
     unfold need in Hf. cbn [render length] in *. rewrite app_length in Hf. cbn [length] in Hf. destruct f as [|f]; [lia|].
-    assert (Eq : (tBegin :: render b ++ tEnd :: tSemi :: render r) ++ [tEnd]
-                 = [tBegin] ++ (render b ++ [tEnd]) ++ [tSemi] ++ (render r ++ [tEnd])).
+    assert (Eq : (tBegin :: render b ++ tEnd :: tSemi :: render r) ++ [tTerm bk]
+                 = [tBegin] ++ (render b ++ [tEnd]) ++ [tSemi] ++ (render r ++ [tTerm bk])).
     { cbn [app]. rewrite <- !app_assoc. reflexivity. }
     rewrite Eq in Ht.
     pose proof (Ht 0 _ eq_refl) as Hk. rewrite Nat.add_0_r in Hk.
     assert (Htb : toks_at (S k) (render b ++ [tEnd])).
     { replace (S k) with (k + 1) by lia. eapply toks_at_prefix. apply (toks_at_shift k 1 [tBegin]); [exact Ht|reflexivity]. }
     set (e := S k + length (render b)).
-    assert (Hts : toks_at (S e) ([tSemi] ++ render r ++ [tEnd])).
+    assert (Hts : toks_at (S e) ([tSemi] ++ render r ++ [tTerm bk])).
     { replace (S e) with (k + 1 + length (render b ++ [tEnd])) by (rewrite app_length; cbn [length]; unfold e; lia).
       apply (toks_at_shift (k + 1) _ (render b ++ [tEnd])); [|reflexivity]. apply (toks_at_shift k 1 [tBegin]); [exact Ht|reflexivity]. }
     pose proof (toks_at_0 _ _ _ Hts eq_refl) as Hse.
-    assert (Htr : toks_at (S (S e)) (render r ++ [tEnd])).
+    assert (Htr : toks_at (S (S e)) (render r ++ [tTerm bk])).
     { replace (S (S e)) with (S e + 1) by lia. apply (toks_at_shift (S e) 1 [tSemi]); [exact Hts|reflexivity]. }
-    destruct (head_tok r) as (t' & H0 & N1 & _). pose proof (toks_at_0 _ _ _ Htr H0) as Hse1.
+    destruct (head_tok bk r) as (t' & H0 & N1 & _). pose proof (toks_at_0 _ _ _ Htr H0) as Hse1.
     unfold stmt_list_call. rewrite (stmt_list_unfold _ _ _ _ _ (ST_err _ _ _ _ _ _ _ _ _ _ H)). cbv zeta.
     change (ctx (CT_Statement SK_Normal) false P_semicolon (ParserGrammar.L 0)) with cSt.
-    assert (HC' : first_parent ((cSt, false) :: (cSB, false) :: C) = None) by exact HC.
-    destruct (iter_block b f _ _ _ _ _ _ _ _ _ t' (IHb _ HC') H HC Hk Htb Hse Hse1 N1 ltac:(unfold need; lia)) as (mc3 & Ty3 & H3).
+    assert (HC' : first_parent ((cSt, false) :: (cBlk bk, false) :: C) = None) by (rewrite first_parent_St_blk; exact HC).
+    destruct (iter_block bk b f _ _ _ _ _ _ _ _ _ t' (IHb KBegin _ HC') H HC Hk Htb Hse Hse1 N1 ltac:(unfold need; lia)) as (mc3 & Ty3 & H3).
     fold e in H3.
-    destruct (loop_tail r C (IHr C HC) f _ _ _ _ _ _ _ _ ltac:(unfold need; lia) Ty3 H3 Htr) as (mc' & last' & fl & Ty & H4).
+    destruct (loop_tail bk r C (IHr bk C HC) f _ _ _ _ _ _ _ _ ltac:(unfold need; lia) Ty3 H3 Htr) as (mc' & last' & fl & Ty & H4).
     exists mc', last', fl. split; [exact Ty|].
     cbn [expected]. cbv zeta. replace (k + 1) with (S k) by lia. fold e.
     replace (e + 1) with (S e) by lia. replace (e + 2) with (S (S e)) by lia.
     replace (k + S (length (render b ++ tEnd :: tSemi :: render r))) with (S (S e) + length (render r))
       by (rewrite app_length; cbn [length]; unfold e; lia).
-    eapply ST_lists; [exact H4| |]; cbn [map]; rewrite ?map_app; cbn [map app ll_toks]; repeat (progress (cbn [app]; rewrite <- ?app_assoc)); reflexivity.
+    eapply ST_lists; [exact H4| |]; cbn [map]; repeat (rewrite map_app; cbn [map]); cbn [map app ll_toks]; repeat (progress (cbn [app]; rewrite <- ?app_assoc)); reflexivity.
+  - (* repeat b until Identifier ; *)
+    unfold need in Hf. cbn [render length] in *. rewrite app_length in Hf. cbn [length] in Hf. destruct f as [|f]; [lia|].
+    assert (Eq : (tRepeat :: render b ++ tUntil :: tI :: tSemi :: render r) ++ [tTerm bk]
+                 = [tRepeat] ++ (render b ++ [tUntil]) ++ [tI; tSemi] ++ (render r ++ [tTerm bk])).
+    { cbn [app]. rewrite <- !app_assoc. reflexivity. }
+    rewrite Eq in Ht.
+    pose proof (Ht 0 _ eq_refl) as Hk. rewrite Nat.add_0_r in Hk.
+    assert (Htb : toks_at (S k) (render b ++ [tUntil])).
+    { replace (S k) with (k + 1) by lia. eapply toks_at_prefix. apply (toks_at_shift k 1 [tRepeat]); [exact Ht|reflexivity]. }
+    set (e := S k + length (render b)).
+    assert (Hts : toks_at (S e) ([tI; tSemi] ++ render r ++ [tTerm bk])).
+    { replace (S e) with (k + 1 + length (render b ++ [tUntil])) by (rewrite app_length; cbn [length]; unfold e; lia).
+      apply (toks_at_shift (k + 1) _ (render b ++ [tUntil])); [|reflexivity]. apply (toks_at_shift k 1 [tRepeat]); [exact Ht|reflexivity]. }
+    pose proof (toks_at_0 _ _ _ Hts eq_refl) as Hi.
+    pose proof (Hts 1 _ eq_refl) as Hse. replace (S e + 1) with (S (S e)) in Hse by lia.
+    assert (Htr : toks_at (S (S (S e))) (render r ++ [tTerm bk])).
+    { replace (S (S (S e))) with (S e + 2) by lia. apply (toks_at_shift (S e) 2 [tI; tSemi]); [exact Hts|reflexivity]. }
+    destruct (head_tok bk r) as (t' & H0 & N1 & _). pose proof (toks_at_0 _ _ _ Htr H0) as Hse1.
+    unfold stmt_list_call. rewrite (stmt_list_unfold _ _ _ _ _ (ST_err _ _ _ _ _ _ _ _ _ _ H)). cbv zeta.
+    change (ctx (CT_Statement SK_Normal) false P_semicolon (ParserGrammar.L 0)) with cSt.
+    assert (HC' : first_parent ((cSt, false) :: (cBlk bk, false) :: C) = None) by (rewrite first_parent_St_blk; exact HC).
+    destruct (iter_repeat bk b f _ _ _ _ _ _ _ _ _ t' (IHb KRepeat _ HC') H HC Hk Htb Hi Hse Hse1 N1 ltac:(unfold need; lia)) as (mc3 & last3 & Ty3 & H3).
+    fold e in H3.
+    destruct (loop_tail bk r C (IHr bk C HC) f _ _ _ _ _ _ _ _ ltac:(unfold need; lia) Ty3 H3 Htr) as (mc' & last' & fl & Ty & H4).
+    exists mc', last', fl. split; [exact Ty|].
+    cbn [expected]. cbv zeta. replace (k + 1) with (S k) by lia. fold e.
+    replace (e + 1) with (S e) by lia. replace (e + 2) with (S (S e)) by lia. replace (e + 3) with (S (S (S e))) by lia.
+    replace (k + S (length (render b ++ tUntil :: tI :: tSemi :: render r))) with (S (S (S e)) + length (render r))
+      by (rewrite app_length; cbn [length]; unfold e; lia).
+    eapply ST_lists; [exact H4| |]; cbn [map]; repeat (rewrite map_app; cbn [map]); cbn [map app ll_toks]; repeat (progress (cbn [app]; rewrite <- ?app_assoc)); reflexivity.
+  - (* try b finally c end ; *)
+    unfold need in Hf. cbn [render length] in *. rewrite !app_length in Hf. cbn [length] in Hf. rewrite app_length in Hf. cbn [length] in Hf.
+    destruct f as [|f]; [lia|].
+    assert (Eq : (tTry :: render b ++ tFinally :: render c ++ tEnd :: tSemi :: render r) ++ [tTerm bk]
+                 = [tTry] ++ (render b ++ [tFinally]) ++ (render c ++ [tEnd]) ++ [tSemi] ++ (render r ++ [tTerm bk])).
+    { cbn [app]. rewrite <- !app_assoc. cbn [app]. rewrite <- !app_assoc. reflexivity. }
+    rewrite Eq in Ht.
+    pose proof (Ht 0 _ eq_refl) as Hk. rewrite Nat.add_0_r in Hk.
+    assert (Htb : toks_at (S k) (render b ++ [tFinally])).
+    { replace (S k) with (k + 1) by lia. eapply toks_at_prefix. apply (toks_at_shift k 1 [tTry]); [exact Ht|reflexivity]. }
+    set (m := S k + length (render b)).
+    assert (Ht2 : toks_at (S m) ((render c ++ [tEnd]) ++ [tSemi] ++ render r ++ [tTerm bk])).
+    { replace (S m) with (k + 1 + length (render b ++ [tFinally])) by (rewrite app_length; cbn [length]; unfold m; lia).
+      apply (toks_at_shift (k + 1) _ (render b ++ [tFinally])); [|reflexivity]. apply (toks_at_shift k 1 [tTry]); [exact Ht|reflexivity]. }
+    assert (Htc : toks_at (S m) (render c ++ [tEnd])) by (eapply toks_at_prefix; exact Ht2).
+    set (e := S m + length (render c)).
+    assert (Hts : toks_at (S e) ([tSemi] ++ render r ++ [tTerm bk])).
+    { replace (S e) with (S m + length (render c ++ [tEnd])) by (rewrite app_length; cbn [length]; unfold e; lia).
+      apply (toks_at_shift (S m) _ (render c ++ [tEnd])); [exact Ht2|reflexivity]. }
+    pose proof (toks_at_0 _ _ _ Hts eq_refl) as Hse.
+    assert (Htr : toks_at (S (S e)) (render r ++ [tTerm bk])).
+    { replace (S (S e)) with (S e + 1) by lia. apply (toks_at_shift (S e) 1 [tSemi]); [exact Hts|reflexivity]. }
+    destruct (head_tok bk r) as (t' & H0 & N1 & _). pose proof (toks_at_0 _ _ _ Htr H0) as Hse1.
+    unfold stmt_list_call. rewrite (stmt_list_unfold _ _ _ _ _ (ST_err _ _ _ _ _ _ _ _ _ _ H)). cbv zeta.
+    change (ctx (CT_Statement SK_Normal) false P_semicolon (ParserGrammar.L 0)) with cSt.
+    assert (HC' : first_parent ((cSt, false) :: (cBlk bk, false) :: C) = None) by (rewrite first_parent_St_blk; exact HC).
+    destruct (iter_try bk b c f _ _ _ _ _ _ _ _ _ t' (IHb KTry _ HC') (IHc KFinally _ HC') H HC Hk Htb Htc Hse Hse1 N1 ltac:(unfold need; lia)) as (mc3 & last3 & Ty3 & H3).
+    fold m in H3. fold e in H3.
+    destruct (loop_tail bk r C (IHr bk C HC) f _ _ _ _ _ _ _ _ ltac:(unfold need; lia) Ty3 H3 Htr) as (mc' & last' & fl & Ty & H4).
+    exists mc', last', fl. split; [exact Ty|].
+    cbn [expected]. cbv zeta. replace (k + 1) with (S k) by lia. fold m. replace (m + 1) with (S m) by lia. fold e.
+    replace (e + 1) with (S e) by lia. replace (e + 2) with (S (S e)) by lia.
+    replace (k + S (length (render b ++ tFinally :: render c ++ tEnd :: tSemi :: render r))) with (S (S e) + length (render r))
+      by (rewrite !app_length; cbn [length]; rewrite app_length; cbn [length]; unfold e, m; lia).
+    eapply ST_lists; [exact H4| |]; cbn [map]; repeat (rewrite map_app; cbn [map]); cbn [map app ll_toks]; repeat (progress (cbn [app]; rewrite <- ?app_assoc)); reflexivity.
 Qed.
 
 (* ---------------- a whole program: `begin` ss `end` `.` Eof *)
@@ -830,19 +1136,19 @@ Proof.
     rewrite (ST_cur_tt _ _ _ _ _ _ _ _ _ _ _ H1 Ht0). reflexivity. }
   rewrite E1. cbn [sarm_of]. cbv delta [sa_begin stmt_block] beta.
   pose proof (next_token_ST _ _ _ _ _ _ _ _ _ _ H1 H0n) as H2. cbn [app] in H2.
-  change (ctx (CT_StatementBlock BK_Begin) true P_end (ParserGrammar.L 1)) with cSB.
-  rewrite (run_S _ (C_stmt_block cSB SK_Normal) _ (ST_err _ _ _ _ _ _ _ _ _ _ H2)). unfold arm_stmt_block.
-  rewrite (with_ctx_stmt_list _ cSB _ _ (ST_err _ _ _ _ _ _ _ _ _ _ H2) eq_refl).
+  change (ctx (CT_StatementBlock BK_Begin) true P_end (ParserGrammar.L 1)) with (cBlk KBegin).
+  rewrite (run_S _ (C_stmt_block (cBlk KBegin) SK_Normal) _ (ST_err _ _ _ _ _ _ _ _ _ _ H2)). unfold arm_stmt_block.
+  rewrite (with_ctx_stmt_list _ (cBlk KBegin) _ _ (ST_err _ _ _ _ _ _ _ _ _ _ H2) eq_refl).
   pose proof (finish_ST _ _ _ _ _ _ _ _ _ _ H2 ltac:(discriminate)) as H3.
   cbn [first_parent plain_sum cTop ctx c_level ParserGrammar.L lm_type app length] in H3.
   change (clamp_u16 (0 + 0)) with 0%N in H3.
-  pose proof (push_ctx_ST cSB _ _ _ _ _ _ _ _ _ _ H3) as H4.
-  destruct (stmts_run ss [(cTop, false)] eq_refl (S f) _ _ _ _ _ _ _ _ ltac:(lia) H4 Htb) as (mcb & lastb & flb & Tyb & H5).
+  pose proof (push_ctx_ST (cBlk KBegin) _ _ _ _ _ _ _ _ _ _ H3) as H4.
+  destruct (stmts_run ss KBegin [(cTop, false)] eq_refl (S f) _ _ _ _ _ _ _ _ ltac:(lia) H4 Htb) as (mcb & lastb & flb & Tyb & H5).
   change (C_stmt_list (CT_Statement SK_Normal) false P_semicolon) with stmt_list_call.
   cbn [plain_sum cTop ctx c_level ParserGrammar.L] in H5. change (1 + (0 + 0))%Z with 1%Z in H5.
   pose proof (pop_ctx_ST _ _ _ _ _ _ _ _ _ _ _ H5) as H6.
   change (1 + length (render ss)) with e in H6.
-  set (sB := pop_ctx pass (RUN (S f) stmt_list_call (push_ctx pass cSB (finish_logical_line pass (next_token pass (push_ctx pass cTop (finish_logical_line pass s0))))))) in *.
+  set (sB := pop_ctx pass (RUN (S f) stmt_list_call (push_ctx pass (cBlk KBegin) (finish_logical_line pass (next_token pass (push_ctx pass cTop (finish_logical_line pass s0))))))) in *.
   assert (He : nth_error T e = Some tEnd).
   { specialize (Htb (length (render ss)) tEnd). rewrite nth_error_app2, Nat.sub_diag in Htb by lia. exact (Htb eq_refl). }
   assert (Hen : e < n) by (unfold e; lia). assert (Hen1 : S e < n) by (unfold e; lia). assert (Hen2 : S (S e) < n) by (unfold e; lia).
@@ -872,14 +1178,21 @@ Proof.
   - cbn [app]. repeat (progress (cbn [app]; rewrite <- ?app_assoc)). reflexivity.
   - cbn [app]. repeat (progress (cbn [app]; rewrite <- ?app_assoc)). reflexivity.
 Qed.
+
 End Frag.
 
 (* ================================================================== *)
 (* instantiation: T := render_prog ss *)
 Lemma render_plain ss : Forall plain (render ss).
 Proof.
-  induction ss as [|r IH|r IH|b IHb r IHr]; cbn [render]; repeat (constructor; [exact I|]); try assumption; try constructor.
-  apply Forall_app. split; [exact IHb|]. repeat (constructor; [exact I|]). exact IHr.
+  induction ss as [|r IH|r IH|b IHb r IHr|b IHb r IHr|b IHb c IHc r IHr]; cbn [render].
+  - constructor.
+  - repeat (constructor; [exact I|]). exact IH.
+  - repeat (constructor; [exact I|]). exact IH.
+  - constructor; [exact I|]. apply Forall_app. split; [exact IHb|]. repeat (constructor; [exact I|]). exact IHr.
+  - constructor; [exact I|]. apply Forall_app. split; [exact IHb|]. repeat (constructor; [exact I|]). exact IHr.
+  - constructor; [exact I|]. apply Forall_app. split; [exact IHb|]. constructor; [exact I|].
+    apply Forall_app. split; [exact IHc|]. repeat (constructor; [exact I|]). exact IHr.
 Qed.
 Lemma render_prog_plain ss : Forall plain (render_prog ss).
 Proof.
@@ -1002,8 +1315,14 @@ Proof. intros H1 H2. unfold consolidate_pass_lines. apply (consolidate_fresh pl 
 
 Lemma expected_props : forall ss d k, Forall (fun l => nonempty_line l = true /\ ll_parent l = None) (expected d k ss).
 Proof.
-  induction ss as [|r IH|r IH|b IHb r IHr]; intros d k; cbn [expected]; try constructor; try (split; reflexivity); try apply IH.
-  cbv zeta. apply Forall_app. split; [apply IHb|]. constructor; [split; reflexivity|apply IHr].
+  induction ss as [|r IH|r IH|b IHb r IHr|b IHb r IHr|b IHb c IHc r IHr]; intros d k; cbn [expected]; cbv zeta.
+  - constructor.
+  - constructor; [split; reflexivity|apply IH].
+  - constructor; [split; reflexivity|apply IH].
+  - constructor; [split; reflexivity|]. apply Forall_app. split; [apply IHb|]. constructor; [split; reflexivity|apply IHr].
+  - constructor; [split; reflexivity|]. apply Forall_app. split; [apply IHb|]. constructor; [split; reflexivity|apply IHr].
+  - constructor; [split; reflexivity|]. apply Forall_app. split; [apply IHb|]. constructor; [split; reflexivity|].
+    apply Forall_app. split; [apply IHc|]. constructor; [split; reflexivity|apply IHr].
 Qed.
 Lemma expected_prog_props ss : Forall (fun l => nonempty_line l = true /\ ll_parent l = None) (expected_prog ss).
 Proof.
@@ -1070,8 +1389,14 @@ Qed.
 (* ---------------- the well-formedness clauses, read off the expected lines *)
 Lemma expected_no_eof : forall ss d k, Forall (fun l => ll_type l <> LLT_Eof) (expected d k ss).
 Proof.
-  induction ss as [|r IH|r IH|b IHb r IHr]; intros d k; cbn [expected]; try constructor; try discriminate; try apply IH.
-  cbv zeta. apply Forall_app. split; [apply IHb|]. constructor; [discriminate|apply IHr].
+  induction ss as [|r IH|r IH|b IHb r IHr|b IHb r IHr|b IHb c IHc r IHr]; intros d k; cbn [expected]; cbv zeta.
+  - constructor.
+  - constructor; [discriminate|apply IH].
+  - constructor; [discriminate|apply IH].
+  - constructor; [discriminate|]. apply Forall_app. split; [apply IHb|]. constructor; [discriminate|apply IHr].
+  - constructor; [discriminate|]. apply Forall_app. split; [apply IHb|]. constructor; [discriminate|apply IHr].
+  - constructor; [discriminate|]. apply Forall_app. split; [apply IHb|]. constructor; [discriminate|].
+    apply Forall_app. split; [apply IHc|]. constructor; [discriminate|apply IHr].
 Qed.
 Corollary fragment_no_parents ss :
   Forall (fun l => ll_parent l = None) (r_lines (parse_file_model (render_prog ss) [])).
@@ -1101,9 +1426,9 @@ Qed.
 
 (* non-vacuity: a program with three nesting levels, all statement forms *)
 Example fragment_example :
-  let ss := SSimple (SBlock (SAssign (SBlock SNil (SSimple SNil))) (SAssign SNil)) in
+  let ss := SSimple (SRepeat (SAssign (STry SNil (SSimple SNil) SNil)) (STry (SBlock SNil SNil) SNil (SBlock (SAssign SNil) SNil))) in
   r_lines (parse_file_model (render_prog ss) []) = expected_prog ss
-  /\ map (fun l => (ll_level l, ll_toks l)) (expected_prog ss)
-     = [(0%N, [0]); (1%N, [1; 2]); (1%N, [3]); (2%N, [4; 5; 6; 7]); (2%N, [8]); (2%N, [9; 10]); (2%N, [11; 12]);
-        (1%N, [13; 14]); (1%N, [15; 16; 17; 18]); (0%N, [19; 20]); (0%N, [21])].
+  /\ map (fun l => (ll_level l, ll_toks l)) (firstn 9 (expected_prog ss))
+     = [(0%N, [0]); (1%N, [1; 2]); (1%N, [3]); (2%N, [4; 5; 6; 7]); (2%N, [8]); (2%N, [9]); (3%N, [10; 11]); (2%N, [12; 13]);
+        (1%N, [14; 15; 16])].
 Proof. split; vm_compute; reflexivity. Qed.
